@@ -6,10 +6,13 @@
   addtogauge <id> <coins|-> <now ns>                                                                     → ok <gauge coins> bal=<coins> | err
   epoch <now ns> <thr: denom=min,…|-> <locks: id:owner:recv|-:durNs:denom:amt:unl(0/1);…|->             → ok pay=[addr:coins;…] up=[…] act=[…] fin=[…] g=[id:filled:distributed;…] bal=<coins> | err
   dump                                                                                                   → every field of the state
+  exportimport <now ns>                                                                                  → ok | panic
+  lockable                                                                                               → ok <ns csv>
 
   coins = denom=amt,denom=amt (sorted by denom) or `-`.
 -/
 import OsmoVerif.Model.Incentives
+import OsmoVerif.Model.IncentivesGenesis
 namespace OsmoVerif.Incentives
 
 def initIncentives : State := init ⟨[], [], []⟩ []
@@ -88,6 +91,15 @@ def stepIncentives (st : State) (op : String) (args : List String) : State × St
       | some (s', info) =>
         (s', s!"ok pay={showRecv (received info)} up={showIds (refsIds s'.upcoming)} act={showIds (refsIds s'.active)} fin={showIds (refsIds s'.finished)} g={showGauges s'.gauges} bal={showCoins s'.balance}")
     | _, _, _ => (st, "bad-op")
+  -- real ExportGenesis, incentives store wiped, real InitGenesis at block time `now` (Model/IncentivesGenesis.lean)
+  | "exportimport", [now] =>
+    match now.toInt? with
+    | some now =>
+      match exportImport now st with
+      | none => (st, "panic")
+      | some s' => (s', "ok")
+    | none => (st, "bad-op")
+  | "lockable", [] => (st, "ok " ++ ",".intercalate (st.cfg.lockable.map toString))
   | "dump", [] =>
     (st, s!"last={st.lastId} gauges=[{";".intercalate (st.gauges.map showFull)}] up={showIds (refsIds st.upcoming)} act={showIds (refsIds st.active)} fin={showIds (refsIds st.finished)} bal={showCoins st.balance}")
   | _, _ => (st, "bad-op")
